@@ -167,7 +167,8 @@ def build_harness(name, asan=False):
         extra = ["asanlib"]
     elif asan:
         extra = ["asan"]
-    with lock("harness-" + name):
+    # hold the library's lock while linking: another check may be relinking libQXmpp right now
+    with lock("repo-asan" if asan == "lib" else "repo-rel"):
         return_code, out = sh([os.path.join(ROOT, "harness", "build.sh"), name] + extra, timeout=900)
     return return_code == 0, out
 
@@ -375,7 +376,7 @@ class Check:
             sanit = ("AddressSanitizer" in h.tail) or ("runtime error" in h.tail) or ("LeakSanitizer" in h.tail)
             key = "%s:%s" % (self.pid, "sanitizer-abort" if sanit else "harness-crash")
             rep = json.dumps({"harness": name, "rc": h.rc, "last_input": h.last_input, "last_ops": h.ops[-40:], "stderr_tail": h.tail[-1500:]})
-            if sanit or h.rc in (134, 139, 136, 124):
+            if sanit or h.rc in (134, 139, 136, 124, 99, 98) or h.rc < 0:   # negative = killed by a signal
                 self.fails.append((key + (":timeout" if h.rc == 124 else ""), rep))
             else:
                 self.broken.append({"what": "harness %s exited with %d" % (name, h.rc), "detail": h.tail[-1500:]})
